@@ -16,21 +16,6 @@ import json, os, re, subprocess, sys
 sys.path.insert(0, os.path.join(os.path.dirname(os.path.abspath(__file__)), "..", "lib"))
 import verif
 
-# ------------------------------------------------------------------ known findings of this component
-_orig_load_known = verif.load_known
-def _load_known():
-    k = _orig_load_known()
-    p = os.path.join(verif.VERIF, "known_findings.C08.json")
-    if os.path.exists(p):
-        mine = json.load(open(p))
-        have = {(f.get("property"), f.get("id")) for f in k.get("findings", [])}
-        fixed = {f.get("id") for f in k.get("fixed", [])} if isinstance(k.get("fixed"), list) and k.get("fixed") and isinstance(k["fixed"][0], dict) else set()
-        for f in mine.get("findings", []):
-            if (f.get("property"), f.get("id")) not in have and f.get("id") not in fixed:
-                k.setdefault("findings", []).append(f)
-    return k
-verif.load_known = _load_known   # lib/verif.py reads only known_findings.json (see NOTES/C08.md)
-
 
 def chsw_fixed():
     """translator fact: is `ch->hidden = 0` executed before set_cursor() in vbi_caption_channel_switched?"""
@@ -290,16 +275,19 @@ class C08(verif.Spec):
     harness = "cc_harness"
     harness_link_lib = True
     timeout_per_case = 5.0
-    partial_note = ("refinement to Eia608 is proved per command (character runs cell for cell, PAC, EOC, EDM, ENM, CR, mid-row) and "
-                    "checked differentially on the real code for well-formed pop-on / roll-up / paint-on / text scripts; the composition over "
-                    "whole scripts is not proved; the unrestricted refinement and event statements are false (proved counterexamples F20, F19); "
+    partial_note = ("refinement to Eia608 is proved for well-formed pop-on streams, roll-up and paint-on scripts (refines_Eia608_scripts_*: "
+                    "byte pairs on field 1 / CC1, fetched page = reference page at every visibility point, by induction over the script "
+                    "grammar; for every caption channel at channel level) and checked differentially on the real code for those scripts plus "
+                    "mid-row codes, tabs, BS/DER, text mode, all four channels and both fields; the unrestricted refinement statement is false "
+                    "(F46, proved counterexample), the unrestricted event statement is false without the two F45 repairs and proved with them; "
                     "XDS/ITV side of caption.c is not modelled")
     assumptions = ["nul_ct and the event counter do not overflow (2^31 null pairs)",
                    "vbi_decode is called with monotone frame times (no time-gap initiated channel switch)"]
-    open_statements = ["Zvbi.Props.C08.refines_Eia608_full (false: refines_Eia608_counterexample, F20)",
-                       "Zvbi.Props.C08.event_on_change_full (false: event_on_change_counterexample, F19)",
-                       "composition of the per-command refinement lemmas over whole pop-on / roll-up scripts (checked differentially only)"]
-    trusted_base = ["translate/gen_cc.py (constants, tables, statement order in vbi_caption_channel_switched; cross-checked by `layout`/`st`)",
+    open_statements = ["Zvbi.Props.C08.refines_Eia608_full (false: refines_Eia608_counterexample, F46; true instances: refines_Eia608_scripts_*)",
+                       "Zvbi.Props.C08.event_on_change_full (false on a tree without the F45 repairs: event_on_change_counterexample; "
+                       "proved with them: event_on_change_repaired)"]
+    trusted_base = ["translate/gen_cc.py (constants, tables, five source facts: chsw statement order, PAC window clamp, RUx clear(), CR update guard, "
+                    "mid-row italics colour; constants cross-checked by `layout`/`st`, the facts by the correspondence run)",
                     "harness/cc_harness.c + lean/Driver/Cc.lean (correspondence incl. internal scalars of all nine channels)",
                     "Cc/Spec.lean Eia608: my transcription of 47 CFR 15.119; solid-space rule as libzvbi lays it out"]
 
